@@ -202,6 +202,21 @@ def has_tag(v, tag):
     return False
 
 
+def vsize(v):
+    if v[0] == 3:
+        return len(v[1])
+    if v[0] in (6, 7):
+        return 1 + sum(vsize(x) for x in v[1])
+    if v[0] == 8:
+        return 30 + sum(vsize(x) for x in v[1][7])
+    return 1
+
+
+def storable(v):
+    """the value itself when it is small enough for a replay file, its abbreviation otherwise"""
+    return v if vsize(v) <= 20000 else brief(v)
+
+
 def brief(v, n=60):
     """readable, bounded rendering of a value for samples / replays"""
     if v[0] == 3 and len(v[1]) > n:
@@ -446,7 +461,7 @@ def writer_round(ctx, h, model, pairs, acc, label):
             jr_cases.append([9, minor, v, c, r[1] if c == 0 else [], r[2] if c == 0 else -1])
         jr = model.run(jr_cases)
         for (idx, v, b, inf), o, mp, j, ri, rm, jrb in zip(items, obs, mpy, jw, ir, mr, jr):
-            case = {"ver": ver, "value": brief(v), "bytes": b if len(b) <= 200 else b[:40] + ["... %d bytes" % len(b)]}
+            case = {"ver": ver, "value": storable(v), "bytes": b if len(b) <= 200 else b[:40] + ["... %d bytes" % len(b)]}
             cm = canon_model_py(mp)
             if cm is not None and (cm != canon_obs_py(o) or (mp[0] == 0 and mp[2] != [])):
                 acc.disagree.append(("marshal.loads of python %s differs from the model's py_loads" % ver, case, brief(o) if o[0] in (3, 6, 7) else o, brief(cm) if cm and cm[0] in (3, 6) else cm))
